@@ -395,6 +395,10 @@ def fam_opts(scripts, rnd, tier):
                         sc += [act("send", size=rnd.choice([-1, 0, 1, 4, 5, 600])) for _ in range(nrep)]
                         sc.append(act("ret", code=0) if outcome == "ok" else act("ret", code=9, msg=["plain"]))
                     c["script"] = sc
+                    # request metadata: what the handler sees of it must not depend on the options either (a stats handler
+                    # owns the header map of its in-header event, not the RPC's)
+                    c["reqmd"] = {"X-Opt": ["v1", "v2"], "Authorization": ["Bearer s3cret"], "X-Opt-Bin": ["0001ff"]}
+                    c["reqwant"] = {"x-opt": ["v1", "v2"], "authorization": ["Bearer s3cret"], "x-opt-bin": ["0001ff"]}
                     pool.append(c)
     for s in (scripts[:300] if tier == "quick" else scripts):
         if s["proto"] in ("http", "grpc", "grpcweb") and not (s["shape"] in ("unary", "sstream") and len(s["sizes"]) != 1):
@@ -500,7 +504,7 @@ def run(prop, tier, replay=None):
                     if g:
                         strip = lambda rs: [(r["idx"], r["equal"], r["err"]) for r in rs]   # sizes depend on the digits of the case id
                         view = json.dumps(dict(http=e["cl"]["http"], msgs=strip(e["cl"]["msgs"]), status=e["cl"]["status"], crash=bool(e["crash"]),
-                                               recv=strip(e["h"]["recv"])), sort_keys=True)
+                                               recv=strip(e["h"]["recv"]), hmd={k: e["h"]["md"].get(k) for k in (e.get("reqwant") or {})}), sort_keys=True)
                         groups[g].append((e["case"], view, e))
             for g, lst in groups.items():
                 base_view = next((v for cid, v, e in lst if not e["c"]["opts"]), lst[0][1])
